@@ -41,7 +41,8 @@ def cases(tier, seed):
                 out.append({'id': 'w3:%s:%s:%s:%d' % (fam, rate, 'x'.join(map(str, bs)), rep), 'file': d,
                             'n': 80 if tier == 'quick' else 300, 'cost': 2})
         for rate, bs in (files.LAYOUTS_2D if tier != 'quick' else rng.sample(files.LAYOUTS_2D, 4)):
-            nT = max(2, rng.choice([bs[1] - 1, bs[1] + 1, 2 * bs[1] - 2, 3]))
+            # (several trace blocks now and then: a reversed box with many blocks between its ends)
+            nT = max(2, rng.choice([bs[1] - 1, bs[1] + 1, 2 * bs[1] - 2, 3] + ([6 * bs[1] + 1] * 2 if bs[1] <= 16 else [])))
             nZ = rng.choice([7, 50, 301]) if bs[2] > 301 else bs[2] + 3
             d = files.wspec_desc(rng, (nT, nZ), rate, bs, version=[0, 2, 9], narr=2)
             out.append({'id': 'w2:%s:%s:%d' % (rate, 'x'.join(map(str, bs)), rep), 'file': d, 'n': 60, 'cost': 1})
@@ -70,6 +71,9 @@ def oob_ranges(n, padded, rng):
     out = [((0, n + 1), 'just-outside'), ((lo, n + 1000), 'far'), ((-1, max(1, lo)), 'negative'), ((-5, -1), 'negative'),
            ((lo, lo), 'empty'), ((n, n), 'empty'), ((min(n - 1, lo + 1), lo), 'reversed') if lo + 1 <= n - 1 or lo > 0 else ((n - 1, 0), 'reversed'),
            ((n, n + 1), 'just-outside')]
+    if n >= 3:
+        # reversed with both ends on the axis and far apart (several blocks between them)
+        out += [((n - 1, 1), 'reversed'), ((n, 1), 'reversed'), ((n - 1, max(1, lo // 2)), 'reversed')]
     out = [o for o in out if o[0][0] >= o[0][1] or o[0][0] < 0 or o[0][1] > n]
     if padded > n:
         out += [((lo, padded), 'padded'), ((n, padded), 'padded'), ((lo, rng.randrange(n + 1, padded + 1)), 'padded')]
@@ -145,6 +149,12 @@ def gen_calls_3d(sp, V, gm, rng, n):
         calls.append(('r', 'get_trace_by_coord', (0, float(zs[0] - dz), float(zs[-1])), 'absent-coordinate', None))
         calls.append(('r', 'get_trace_by_coord', (0, float(zs[0]), float(zs[-1] + 2 * dz)), 'absent-coordinate', None))
         calls.append(('r', 'get_trace_by_coord', (nT, float(zs[0]), float(zs[-1])), 'just-outside', None))
+        if not np.any(np.isclose(zs, 0.0)):
+            # the coordinate 0 on an axis that does not hold it (it is a coordinate like any other, not "bound omitted")
+            t = rng.randrange(nT)
+            for a in ((t, 0, float(zs[-1])), (t, float(zs[0]), 0), (t, 0.0, None), (t, None, 0.0), (t, None, 0)):
+                calls.append(('r', 'get_trace_by_coord', a, 'absent-coordinate-zero', None))
+            calls.append(('r', 'read_zslice_coord', (0,), 'absent-coordinate-zero', None))
     # diagonals
     for name, lo_id, hi_id in (('read_correlated_diagonal', -nX + 1, nI), ('read_anticorrelated_diagonal', 0, nI + nX - 1)):
         for v in (hi_id, hi_id + 5, lo_id - 1, lo_id - 100, 10 ** 6):
@@ -185,6 +195,14 @@ def gen_calls_2d(sp, V, rng, n):
     for (lo, hi), c in oob_ranges(nZ, pZ, rng):
         ref = 'empty' if c in ('empty', 'reversed') and 0 <= lo <= nZ and 0 <= hi <= nZ else None
         calls.append(('r', 'get_trace', (rng.randrange(nT), lo, hi), 'window-' + c, ref))
+    zs = sp.samples()
+    dz = float(zs[1] - zs[0])
+    t = rng.randrange(nT)
+    calls.append(('r', 'get_trace_by_coord', (t, float(zs[0] - dz), float(zs[-1])), 'absent-coordinate', None))
+    calls.append(('r', 'get_trace_by_coord', (t, float(zs[0]), float(zs[-1] + 2 * dz)), 'absent-coordinate', None))
+    if not np.any(np.isclose(zs, 0.0)):
+        for a in ((t, 0, float(zs[-1])), (t, float(zs[0]), 0), (t, 0.0, None), (t, None, 0.0)):
+            calls.append(('r', 'get_trace_by_coord', a, 'absent-coordinate-zero', None))
     for m, a in (('read_inline', (0,)), ('read_crossline', (0,)), ('read_zslice', (0,)), ('read_subvolume', (0, 1, 0, 1, 0, 1)),
                  ('read_volume', ()), ('read_correlated_diagonal', (0,)), ('read_anticorrelated_diagonal', (0,)),
                  ('read_inline_number', (1,)), ('read_crossline_number', (1,))):
@@ -261,7 +279,7 @@ def run_case(case, ctx):
 def finalize(tier, cases, results, counters, strata):
     reasons = []
     for s in ['kind:3d', 'kind:2d', 'kind:irregular', 'class:padded', 'class:negative', 'class:far',
-              'class:just-outside', 'class:absent-coordinate', 'class:dim-mismatch', 'class:window-padded',
+              'class:just-outside', 'class:absent-coordinate', 'class:absent-coordinate-zero', 'class:dim-mismatch', 'class:window-padded',
               'class:window-reversed', 'class:window-empty']:
         if s not in strata:
             reasons.append('required stratum not hit: ' + s)
